@@ -19,7 +19,7 @@ REQUIRED = {"pairs_checked": 20000, "mixed_cases": 150, "uniform_cases": 150, "g
 
 
 def plan(tier, seed):
-    n = 2000 if tier == "quick" else 50000
+    n = 4000 if tier == "quick" else 50000
     return [["excl", i] for i in range(n)]
 
 
